@@ -223,6 +223,10 @@ func buildLayout(sc *Scn, runDirPrefix string) intoto.Layout {
 			s.ExpectedMaterials = append([][]string{{"ALLOW", "release notes "}, {"DISALLOW", " draft\t"}}, s.ExpectedMaterials...)
 			s.ExpectedProducts = append([][]string{{"ALLOW", "  spaced out  "}}, s.ExpectedProducts...)
 		}
+		if sc.Defect == "history-unclean-rule-pattern" {
+			s.ExpectedMaterials = append([][]string{{"ALLOW", "./release-notes"}, {"DISALLOW", "drafts//x"}, {"ALLOW", "docs/"}}, s.ExpectedMaterials...)
+			s.ExpectedProducts = append([][]string{{"ALLOW", "a/../b/x"}, {"DISALLOW", "./"}}, s.ExpectedProducts...)
+		}
 		if sc.Defect == "case-variant-rule-earlier" {
 			// harmless rules (no such files) that differ from the inspection's DISALLOW only in letter case
 			up := strings.ToUpper(runDirPrefix)
@@ -704,6 +708,7 @@ var defects = map[string][]string{
 		"required-link-missing", "required-link-unreadable", "none", "disagree-product-digest", "disagree-product-path", "disagree-material-digest", "disagree-algorithm", "disagree-algorithm-material",
 		"junk-uncounted-badsig", "junk-uncounted-unauthorised", "extra-agreeing-link", "byproducts-differ",
 		"threshold1-disagree-product-digest", "threshold1-disagree-algorithm", "threshold1-agree",
+		"threshold1-disagree-product-digest-link-named-otherwise", "disagree-product-digest-link-named-otherwise", "threshold1-agree-link-named-otherwise",
 		"permissive-disagree-algorithm", "permissive-disagree-algorithm-material", "permissive-disagree-product-digest", "permissive-none",
 		"insp-named-like-last-step", "insp-named-like-first-step", "permissive-unclean-paths",
 		"permissive-sub-beside-link-disagree", "permissive-sub-beside-link-agree", "permissive-twin-sublayouts-disagree", "permissive-twin-sublayouts-agree",
@@ -713,7 +718,7 @@ var defects = map[string][]string{
 		"sub-expired", "sub-undated", "sub-rfc3339-offset", "none", "expired-long", "expired-2s", "future-1h", "garbage", "empty", "rfc3339-offset", "date-only", "year-9999", "fraction", "lowercase"},
 	"c08": {"sub-insp-killed-by-signal", "sub-same-step-name-upper-link-missing", "sub-same-step-name-both-present", "sub-wide-9", "sub-defective-beside-good-link-large", "sub-insp-named-like-first-step", "sub-insp-named-like-last-step", "sub-defective-beside-good-link", "sub-ok", "sub-ok", "sub-badsig", "sub-expired", "sub-missing-link", "sub-rule-violation", "sub-unauthorised", "sub-nested", "sub-nested-defect", "sub-summary-mismatch", "sub-summary-mismatch-other-algorithm"},
 	"c10": {"history-same-params", "history-diff-params", "history-no-params", "history-mixed", "mixed-cert-key", "mixed-cert-key", "mixed-cert-key-unsorted", "summary-byproducts", "direct-unclean",
-		"history-empty-command-argument", "history-dir-relative-inspection-fails-midway", "mixed-cert-key-dir", "history-layout-keys-share-short-id", "history-four-links-two-groups", "history-dir-inspection-relative-command", "history-caller-intermediates-spare-capacity", "mixed-cert-key-other-step-constraint-mismatch", "history-two-sublayouts-same-functionary", "history-multi-alg", "history-multi-alg-mismatch", "history-whitespace-rule", "history-param-value-has-marker", "mixed-cert-key-marker-constraint", "history-threshold-zero"},
+		"history-empty-command-argument", "history-dir-relative-inspection-fails-midway", "mixed-cert-key-dir", "history-layout-keys-share-short-id", "history-four-links-two-groups", "history-dir-inspection-relative-command", "history-caller-intermediates-spare-capacity", "mixed-cert-key-other-step-constraint-mismatch", "history-two-sublayouts-same-functionary", "history-multi-alg", "history-multi-alg-mismatch", "history-whitespace-rule", "history-unclean-rule-pattern", "history-param-value-has-marker", "mixed-cert-key-marker-constraint", "history-threshold-zero"},
 	"c09": {"match-materials-then-products-of-one-step", "require-on-empty-queue", "insp-killed-by-signal", "socket-file-added", "unclean-disallow-pattern-product-added", "star-class-pattern-product-added", "dangling-symlink-added", "step-rule-fails-no-inspection-may-run", "symlinked-dir-before-tampered-product", "symlinked-dir-untouched", "product-crlf-rewritten", "product-crlf-rewritten-normalised", "large-product-tampered-tail", "large-product-untouched", "product-added-ignorable-name-0", "product-added-ignorable-name-1", "product-added-ignorable-name-2", "product-added-ignorable-name-3",
 		"product-added-ignorable-name-4", "product-added-ignorable-name-5", "product-added-ignorable-name-6", "product-added-ignorable-name-7",
 		"product-added-ignorable-name-8", "product-added-ignorable-name-9", "product-added-ignorable-name-10", "case-variant-rule-earlier", "product-modified-backslash-decoy", "sha512-chain-product-modified", "escaped-pattern-product-modified", "escaped-pattern-none", "insp-rewrite-same-mtime", "product-all-removed", "require-after-consume", "none", "insp-fail", "insp-fail-255", "insp-missing", "insp-empty", "product-modified", "product-added", "product-removed",
@@ -953,7 +958,7 @@ func genScenario(r *lib.Rng, focus string, idx int) *Scn {
 		}
 		switch d {
 		case "last-step-without-products":
-		case "none", "junk-uncounted-badsig", "junk-uncounted-unauthorised", "extra-agreeing-link", "byproducts-differ", "threshold1-agree", "permissive-none", "extra-agreeing-link-uppercase-keyid",
+		case "none", "junk-uncounted-badsig", "junk-uncounted-unauthorised", "extra-agreeing-link", "byproducts-differ", "threshold1-agree", "threshold1-agree-link-named-otherwise", "permissive-none", "extra-agreeing-link-uppercase-keyid",
 			"insp-named-like-last-step", "insp-named-like-first-step", "permissive-unclean-paths",
 			"permissive-sub-beside-link-agree", "permissive-twin-sublayouts-agree":
 		default:
@@ -1324,6 +1329,11 @@ func genScenario(r *lib.Rng, focus string, idx int) *Scn {
 			sc.ExpectLog = []string{"insp0", "gate"}
 			sc.History = []map[string]string{rel, dbg, rel, dbg, rel}
 			sc.Reps = 2
+		case "history-unclean-rule-pattern":
+			// (harmless) rules whose patterns are not in path.Clean form: evaluating the rules must not rewrite the caller's
+			// layout - what was signed stays what is verified, however often the same object is used
+			sc.Params = nil
+			sc.History = []map[string]string{nil, nil, nil, nil}
 		case "history-whitespace-rule":
 			// a (harmless) rule whose pattern carries surrounding blanks: parsing the rules must not rewrite the caller's layout
 			sc.Params = nil
@@ -1805,6 +1815,15 @@ func applyLinkDefects(sc *Scn, w *world, r *lib.Rng) {
 		must(os.WriteFile(p, []byte("{\"signed\": {\"_type\": \"link\","), 0o644))
 	case "disagree-product-digest":
 		resign(func(l *intoto.Link) { l.Products[anyKey(l.Products)] = hobj("something else") })
+	case "disagree-product-digest-link-named-otherwise":
+		// the disagreeing link of an authorised functionary carries another spelling of the step name in its payload (the
+		// file name and the signature decide what is counted, nothing inside the payload does): still evidence, still compared
+		resign(func(l *intoto.Link) {
+			l.Products[anyKey(l.Products)] = hobj("something else")
+			l.Name = strings.ToUpper(l.Name[:1]) + l.Name[1:] + " "
+		})
+	case "agree-link-named-otherwise":
+		resign(func(l *intoto.Link) { l.Name = "some-other-step" })
 	case "disagree-algorithm-material":
 		resign(func(l *intoto.Link) {
 			k := anyKey(l.Materials)
